@@ -316,9 +316,13 @@ func (m *Module) stopAllTasks(reports chan *report) {
 	stopFnError := m.startCtrlFn("stop module", m.stopFn)
 
 	// wait for results
+	var err error
 	select {
 	case <-m.stopComplete:
-		// Complete!
+		// Complete! This implies that the stop function has returned and reset
+		// the control function flag; its result is handed over right after that
+		// reset, so wait for it instead of only polling for it.
+		err = <-stopFnError
 	case <-time.After(moduleStopTimeout):
 		vhook.AtS("modules.stop.timeout", m.Name)
 		log.Warningf(
@@ -329,21 +333,21 @@ func (m *Module) stopAllTasks(reports chan *report) {
 			atomic.LoadInt32(m.taskCnt),
 			atomic.LoadInt32(m.microTaskCnt),
 		)
+
+		// Check for stop fn status.
+		select {
+		case err = <-stopFnError:
+		default:
+		}
 	}
 
-	// Check for stop fn status.
-	var err error
-	select {
-	case err = <-stopFnError:
-		if err != nil {
-			// Set error as module error.
-			m.Error(
-				fmt.Sprintf("%s:stop-failed", m.Name),
-				fmt.Sprintf("Stopping module %s failed", m.Name),
-				fmt.Sprintf("Failed to stop module: %s", err.Error()),
-			)
-		}
-	default:
+	if err != nil {
+		// Set error as module error.
+		m.Error(
+			fmt.Sprintf("%s:stop-failed", m.Name),
+			fmt.Sprintf("Stopping module %s failed", m.Name),
+			fmt.Sprintf("Failed to stop module: %s", err.Error()),
+		)
 	}
 
 	// Always set to offline in order to let other modules shutdown in order.
